@@ -1009,8 +1009,8 @@ def oracle(ctx):
                     shrunk.add(v["signature"])
                     try:
                         case["graph"] = shrink(ctx, g["G"], v["q"], v["signature"], ctx.tmp)
-                    except Exception:  # noqa
-                        pass
+                    except Exception as e:  # noqa
+                        ctx.notes["shrink_failed"] = "%s: %s" % (type(e).__name__, e)
                 ctx.violation(v["what"], case, v["signature"])
         last = time.time() - t0
     if done < n_graphs:
